@@ -44,6 +44,23 @@ CLAIMS = {
              "path and flag combinations with CadDone are covered by the trace correspondence and the delivery monitor only.",
         technique="Lean 4 weakest-precondition proof of the LoRa handler + induction on the FIFO burst + scheduler scripts",
         design="7 C05"),
+    'C06': dict(
+        text="Proof. Theorems Sx.C06_set_for_transmission (for every payload of 1..255 bytes, any prior FIFO pointer, buffer and register content: "
+             "OK, payload-length register = byte count, byte i of the data at buffer address TxBase+i with TxBase = 0 as lora_reset_fifo programs, "
+             "all other buffer bytes and registers unchanged; burst write with pointer wrap proved by induction), C06_empty_rejected (no transfer) "
+             "and C06_tx_done (for every flag byte without RxDone: exactly one transmit callback iff TxDone and neither CadDone nor "
+             "PayloadCrcError, none otherwise). Flag bytes with RxDone are covered by C05.",
+        technique="Lean 4 weakest-precondition proof + induction on the FIFO burst write + scheduler scripts",
+        design="7 C06"),
+    'C07': dict(
+        text="Proof for the LoRa clauses and the acknowledge=read clause of FSK/OOK; correspondence + schedule exploration for the FSK/OOK packet "
+             "clauses. Theorems: C07_lora_ack_is_read / C07_fsk_ack_is_read (program shape: the handler's first request reads the flag register "
+             "and its next request writes exactly the byte read, for every handle), C07_later_events_stay_pending with the chip's "
+             "write-1-to-clear semantics (flags raised between sampling and acknowledgement are still set afterwards), C07_idle_lora (no callback, "
+             "only the acknowledgement write), C07_cad_done, and with C05_rx_done / C06_tx_done exactly one matching callback per event. "
+             "The lora_race script family raises events at chosen transfer indices of a running handler on the real driver.",
+        technique="Lean 4 program-shape theorems + W1C chip lemma + event injection between SPI transfers",
+        design="7 C07"),
     'C13': dict(
         text="Proof. Theorems Sx.C13_set_bandwidth, C13_set_spreading_factor, C13_override and their liftings to the cached build after any "
              "history (C13_bandwidth_cached, C13_spreading_factor_cached, via the bridge step_cached_of_wp = C02 + C01): for each of the ten "
@@ -54,6 +71,14 @@ CLAIMS = {
              "The monitor re-evaluates the rule on the real driver's trace for all 70 combinations in both call orders.",
         technique="Lean 4 weakest-precondition proof over the model + kernel-decided byte facts + exhaustive combination scripts",
         design="7 C13"),
+    'C16': dict(
+        text="Proof. Theorems Sx.C16_kth_hop_index (the j-th channel-change event after a packet boundary uses entry j mod len, for every list "
+             "length >= 1 and every number of hops, by induction), C16_hop (one hop from any stored counter <= len: RegFrf is programmed with "
+             "the encoding of an entry inside the list, the counter becomes index+1, nothing else is written but the acknowledgement), "
+             "C16_restart_tx / _crc / _rx (TxDone, PayloadCrcError, RxDone — alone or together with the channel-change flag — reset the counter "
+             "and program no frequency). The conversion of the frequency to register bytes is taken as given here (C12).",
+        technique="Lean 4 induction over hop events + weakest-precondition proof of the dispatch order",
+        design="7 C16"),
     'C17': dict(
         text="Proof. Theorems Sx.create_is_one_read (the program of sx127x_create is exactly one single-register read of RegVersion: no other "
              "request exists), C17_create (cached build, any old state, any environment events around the transfer, any fault: exactly one "
